@@ -29,6 +29,10 @@ Ask(op, s) ==
                             ELSE [k |-> "err", v |-> "ValueError"]
     [] name = "delslice" -> [k |-> "new", v |-> Splice(s, i, j, <<>>)]
     [] name = "setslice" -> [k |-> "new", v |-> Splice(s, i, j, xs)]
+    \* extended slices: x carries the step as <<step, 0>>
+    [] name = "delxslice" -> [k |-> "new", v |-> XDel(s, i, j, x[1])]
+    [] name = "setxslice" -> IF Len(xs) # Len(XPos(s, i, j, x[1])) THEN [k |-> "err", v |-> "ValueError"]
+                             ELSE [k |-> "new", v |-> XSet(s, i, j, x[1], xs)]
     [] name = "reverse"  -> [k |-> "new", v |-> Rev(s)]
     [] name = "clear"    -> [k |-> "new", v |-> <<>>]
 
@@ -48,6 +52,8 @@ IsLengthError(r) == r \in {"NotEnoughData", "TooMuchData"}
 None == <<0, 0>>
 P(name, i, j, x, xs) == <<name, i, j, x, xs>>
 Idx(s) == (0 - Len(s) - 1)..(Len(s) + 1)
+XB == {Open, 0, 1, -1}                           \* bounds offered for extended slices
+Steps == {-1, -2, 2}
 ListsUpTo(Its, k) == UNION {[1..n -> Its] : n \in 0..k}
 OpsOver(s, Its, MaxXs, MaxSliceXs) ==
           {P("insert", i, 0, x, <<>>) : i \in Idx(s), x \in Its}
@@ -60,6 +66,8 @@ OpsOver(s, Its, MaxXs, MaxSliceXs) ==
      \cup {P("remove", 0, 0, x, <<>>) : x \in Its}
      \cup {P("delslice", i, j, None, <<>>) : i \in Idx(s), j \in Idx(s)}
      \cup {P("setslice", i, j, None, xs) : i \in Idx(s), j \in Idx(s), xs \in ListsUpTo(Its, MaxSliceXs)}
+     \cup {P("delxslice", i, j, <<k, 0>>, <<>>) : i \in XB, j \in XB, k \in Steps}
+     \cup {P("setxslice", i, j, <<k, 0>>, xs) : i \in {Open, 1}, j \in {Open, 1}, k \in Steps, xs \in ListsUpTo(Its, MaxSliceXs)}
      \cup {P("reverse", 0, 0, None, <<>>), P("clear", 0, 0, None, <<>>)}
 Valid(s) == MinB <= SumSizes(s) /\ SumSizes(s) <= MaxB
 =============================================================================
